@@ -12,7 +12,12 @@ trap 'git -C /repo worktree remove --force $WT 2>/dev/null; rm -rf $VF' EXIT
 git -C /repo worktree add -q --detach $WT ${BASE_REV:-HEAD} || exit 2
 if [ "$P" != none ] && ! git -C $WT apply "$P"; then echo "patch does not apply"; exit 2; fi
 mkdir -p $VF
-rsync -a --exclude .build --exclude .scratch --exclude seeded --exclude evidence --exclude replays --exclude .git /verif/ $VF/
+# the committed state of /verif (a working tree that is being edited does not make a run fail); VERIF_LIVE=1: the working tree
+if [ "${VERIF_LIVE:-0}" = 1 ]; then
+  rsync -a --exclude .build --exclude .scratch --exclude seeded --exclude evidence --exclude replays --exclude .git /verif/ $VF/
+else
+  git -C /verif archive HEAD -- . ':!seeded' ':!evidence' | tar -x -C $VF
+fi
 cd $VF
 go mod edit -replace github.com/brutella/hc=$WT
 export VERIF_REPO=$WT
